@@ -211,6 +211,25 @@ class PybindWrapper:
 
         return ret
 
+    @staticmethod
+    def _cpp_string_literal(text: str) -> str:
+        """
+        The characters to put between the quotes of a C++ string literal so that
+        the compiler reproduces `text` (as UTF-8). Everything outside printable
+        ASCII is written as 3-digit octal escapes of its UTF-8 bytes: unlike
+        `\\x..` they cannot swallow a following digit.
+        """
+        escapes = {'\\': '\\\\', '"': '\\"', '\n': '\\n', '\t': '\\t', '\r': '\\r'}
+        res = ''
+        for char in text:
+            if char in escapes:
+                res += escapes[char]
+            elif ' ' <= char <= '~':
+                res += char
+            else:
+                res += ''.join('\\%03o' % byte for byte in char.encode('utf-8'))
+        return res
+
     def _wrap_method(self,
                      method,
                      cpp_class,
@@ -286,7 +305,7 @@ class PybindWrapper:
                    # If extract_docstring errors or fails to find a docstring, it just prints a warning.
                    # The incantation repr(...)[1:-1].replace('"', r'\"') replaces newlines with \n 
                    # and " with \" so that the docstring can be put into a C++ string on a single line.
-                   docstring=', "' + repr(self.xml_parser.extract_docstring(self.xml_source, cpp_class, cpp_method, method.args.names()))[1:-1].replace('"', r'\"') + '"' 
+                   docstring=', "' + self._cpp_string_literal(self.xml_parser.extract_docstring(self.xml_source, cpp_class, cpp_method, method.args.names())) + '"' 
                        if self.xml_source != "" else "",
                ))
 
